@@ -16,7 +16,7 @@ def run(prop, tier, seed, known):
 
     class Fails(list):
         """keeps only the relations that belong to the property being checked"""
-        RULES = (('raised', ('C14',)), ('out of', ('C01',)), ('not binary', ('C01',)), ('nested', ('C07',)), ('above without', ('C07',)),
+        RULES = (('octave', ('C09',)), ('raised', ('C14',)), ('out of', ('C01',)), ('not binary', ('C01',)), ('nested', ('C07',)), ('above without', ('C07',)),
                  ('perfect', ('C02',)), ('shift', ('C08',)), ('reordering', ('C08',)), ('symmetric', ('C06',)), ('swap', ('C06',)))
 
         def append(self, msg):
@@ -149,6 +149,26 @@ def run(prop, tier, seed, known):
             b = guard('transcription', lambda: T.precision_recall_f1_overlap(ri, rpit, ei, rpit))
             if a is not None and b is not None and (a[0] > b[0] + 1e-12 or a[1] > b[1] + 1e-12):
                 fails.append('with velocity scores above without velocity: %s vs %s' % (a, b))
+            # ---------------------------------------------------------------- melody: octave, sign flip, common factor (C09)
+            nf = rng.randint(2, 6)
+            tt = np.arange(nf) * 0.125
+            rf = np.array([rng.choice([0.0, 220.0, 330.0, 440.0 * 2 ** (rng.randint(-10, 10) / 12.0)]) for _ in range(nf)])
+            dev = [rng.choice([-30, -10, 0, 10, 30, 60, 1190, 1210, -1190]) for _ in range(nf)]
+            ef = np.array([0.0 if (f == 0 and rng.random() < 0.5) else (f if f else 220.0) * 2 ** (d / 1200.0) for f, d in zip(rf, dev)])
+            m0 = guard('melody.evaluate', lambda: melody.evaluate(tt, rf, tt, ef))
+            if m0 is not None:
+                for kk_ in (-1, 1, 2):
+                    m1 = melody.evaluate(tt, rf, tt, ef * 2.0 ** kk_)
+                    if abs(m0['Raw Chroma Accuracy'] - m1['Raw Chroma Accuracy']) > 1e-9:
+                        fails.append('octave shift of the estimate by %d octaves changes Raw Chroma Accuracy: %r vs %r (deviations %s cents)' % (kk_, m0['Raw Chroma Accuracy'], m1['Raw Chroma Accuracy'], dev))
+                m2 = melody.evaluate(tt, rf, tt, -ef)
+                if abs(m0['Raw Pitch Accuracy'] - m2['Raw Pitch Accuracy']) > 1e-9 or abs(m0['Raw Chroma Accuracy'] - m2['Raw Chroma Accuracy']) > 1e-9:
+                    fails.append('octave/sign: negating the estimated frequencies changes raw pitch / raw chroma accuracy')
+                m3 = melody.evaluate(tt, rf * 2.0, tt, ef * 2.0)
+                if any(abs(m0[k_] - m3[k_]) > 1e-9 for k_ in m0):
+                    fails.append('octave: multiplying reference and estimate by 2 changes melody scores: %s vs %s' % (dict(m0), dict(m3)))
+                if m0['Raw Pitch Accuracy'] > m0['Raw Chroma Accuracy'] + 1e-12:
+                    fails.append('nested: raw pitch above raw chroma accuracy')
             # ---------------------------------------------------------------- alignment PCS
             ts = np.array(sorted(rng.sample([x * 0.25 for x in range(0, 40)], rng.randint(2, 6))))
             es = np.array(sorted(max(0.0, x + rng.choice([-0.25, 0, 0.25])) for x in ts))
